@@ -725,10 +725,21 @@ def inject_text(rng, original, style):
         return "{% if nope == 'a' %}" + original + "{% endif %}"
     if style == "escape":
         return "{{nope|escape}}"
+    # literal braces (not delimiters) around the reference: before it, after it, JSON-like text, before a block tag
+    if style == "brace_before":
+        return "Reply {yes} or {no}, {{ nope }}"
+    if style == "brace_after":
+        return original + "{{ nope }} {ok}"
+    if style == "json_like":
+        return '{"user": "{{ nope }}", "n": {"k": 1}}'
+    if style == "brace_before_block":
+        return "Set {a, b}: {% if nope == 'a' %}x{% endif %}"
     raise AssertionError(style)
 
 
-STYLES = ["replace", "append", "native", "attr", "for", "if", "escape"]
+STYLES = ["replace", "append", "native", "attr", "for", "if", "escape",
+          "brace_before", "brace_after", "json_like", "brace_before_block"]
+# ({@ … @} is a template only when it is the WHOLE cell: text before it makes it literal text — no style for that)
 
 
 def canon_doc(doc):
@@ -791,6 +802,24 @@ def e2e_worker(args):
             if not rc.ok or canon_doc(rc.doc) != base_doc:
                 viol.append({"what": "control: a cell written as {{name}} with the name defined does not compile to the same flow as the literal cell",
                              "rows": ctl, "context": {CTX_NAME: orig}, "cell": [i, h], "errors": [rc.exc, rc.errors[:2]]})
+            # control 2: literal braces in front of / behind a reference to a DEFINED name are kept, the reference is
+            # replaced (text cells of message rows; the literal twin holds the same text written out)
+            if h == "message_text" and rows[i].get("type") == "send_message" and "{" not in orig and rng.random() < 0.5:
+                pre, post = rng.choice([("{a} ", ""), ("{\"k\": \"", "\"}"), ("", " {b}"), ("x{ ", " }y")])
+                lit2, tpl2 = copy.deepcopy(rows), copy.deepcopy(rows)
+                lit2[i][h] = pre + orig + post
+                tpl2[i][h] = pre + "{{" + CTX_NAME + "}}" + post
+                rl = compile_flow_sheet(G.HEADERS, lit2, context={"unrelated": "u"})
+                if rl.ok:
+                    rt = compile_flow_sheet(G.HEADERS, tpl2, context={CTX_NAME: orig, "unrelated": "u"})
+                    bump("e2e.control.literal_braces_around_reference")
+                    keys.append(f"ctl2|{seed}|{si}|{i}|{h}|{pre}")
+                    if not rt.ok or canon_doc(rt.doc) != canon_doc(rl.doc):
+                        viol.append({"what": "control: literal braces around a reference to a defined name — the cell does not compile to the flow of the same text written out",
+                                     "rows": tpl2, "context": {CTX_NAME: orig}, "cell": [i, h], "literal_cell": lit2[i][h], "errors": [rt.exc, rt.errors[:2]],
+                                     "csv": rows_to_csv(G.HEADERS, tpl2)})
+                else:
+                    bump("e2e.control.literal_braces_twin_rejected")
             # injected: ONE missing name in this cell
             style = rng.choice(STYLES)
             bad = copy.deepcopy(rows)
